@@ -52,6 +52,7 @@ import (
 	"errors"
 	"iter"
 	"log/slog"
+	"maps"
 	"net/http"
 	"time"
 
@@ -303,13 +304,24 @@ func (r *transport) handleCacheHit(
 ) (*http.Response, error) {
 	ccReq := internal.ParseCCRequestDirectives(req.Header)
 	ccResp := internal.ParseCCResponseDirectives(stored.Data.Header)
-	freshness := r.fc.CalculateFreshness(stored, ccReq, ccResp)
+	// A request max-age of zero asks for validation in this exchange; that is enforced below.
+	// It is kept out of the freshness calculation, so that the record describes the stored
+	// response itself: its real age goes into the Age field and the stale-if-error window is
+	// measured against its real staleness should the validation fail.
+	freshnessReq := ccReq
+	reqMaxAge, hasReqMaxAge := ccReq.MaxAge()
+	validateNow := hasReqMaxAge && reqMaxAge == 0
+	if validateNow {
+		freshnessReq = maps.Clone(ccReq)
+		delete(freshnessReq, "max-age")
+	}
+	freshness := r.fc.CalculateFreshness(stored, freshnessReq, ccResp)
 	respNoCacheFieldsRaw, hasRespNoCache := ccResp.NoCache()
 	respNoCacheFieldsSeq, isRespNoCacheQualified := respNoCacheFieldsRaw.Value()
 	var needsValidation bool
 
 	// RFC 8246: If response is fresh and immutable, always serve from cache unless request has no-cache
-	if !freshness.IsStale && ccResp.Immutable() && !ccReq.NoCache() &&
+	if !freshness.IsStale && ccResp.Immutable() && !ccReq.NoCache() && !validateNow &&
 		!(hasRespNoCache && !isRespNoCacheQualified) {
 		return r.serveFromCache(
 			req,
@@ -323,7 +335,7 @@ func (r *transport) handleCacheHit(
 
 	// Validation is required before reuse: request no-cache, stale + must-revalidate,
 	// or unqualified no-cache on the stored response.
-	needsValidation = ccReq.NoCache() ||
+	needsValidation = ccReq.NoCache() || validateNow ||
 		(freshness.IsStale && ccResp.MustRevalidate()) ||
 		(hasRespNoCache && !isRespNoCacheQualified)
 
@@ -363,7 +375,6 @@ func (r *transport) handleCacheHit(
 		staleFor := age - freshness.UsefulLife
 		// A request max-age that the response exceeds asks for validation in this exchange
 		// (RFC 9111 §5.2.1.1); stale-while-revalidate does not override it.
-		reqMaxAge, hasReqMaxAge := ccReq.MaxAge()
 		exceedsReqMaxAge := hasReqMaxAge && age >= reqMaxAge
 		if staleFor >= 0 && staleFor < swr && !exceedsReqMaxAge {
 			return r.handleStaleWhileRevalidate(
